@@ -10,7 +10,8 @@ write their evidence to the scratch directory.  Usage: tools/selftest.py [mutant
 import json, os, subprocess, sys
 BASE = os.path.dirname(os.path.dirname(os.path.abspath(__file__)))
 os.chdir(BASE)
-EQUIVALENT = {'c19_b': 'until< at< eol > > instead of eolf: under rewind_mode::optional the failing until leaves the cursor at the end, same result'}
+EQUIVALENT = {'c08_a': 'coverage failure(): the pop moved after the own counter but still before the branch counter: same counters, same stack',
+              'c19_b': 'until< at< eol > > instead of eolf: under rewind_mode::optional the failing until leaves the cursor at the end, same result'}
 WT = '/tmp/selftest_wt'
 what = sys.argv[1] if len(sys.argv) > 1 else 'mutants'
 names = sys.argv[2:]
